@@ -85,7 +85,12 @@ func (r *Rng) igcDoc() []byte {
 		sb.WriteString("NOISE" + eol)
 	}
 	if !r.chance(1, 15) {
-		sb.WriteString("AXTR20C38FF2C110" + eol)
+		a := "AXTR20C38FF2C110"
+		if r.chance(1, 25) { // long free text in the A record, with record look-alikes inside
+			pad := []int{4096, 4097, 8192, 5000}[r.Intn(4)] - len(a)
+			a += strings.Repeat("x", pad) + r.igcBRecord(0) + " HFDTE010101"
+		}
+		sb.WriteString(a + eol)
 	}
 	sb.WriteString(fmt.Sprintf("HFDTE%02d%02d%02d%s", 1+r.Intn(31), 1+r.Intn(12), r.Intn(100), eol))
 	if r.chance(1, 3) {
@@ -136,6 +141,13 @@ func (r *Rng) igcDoc() []byte {
 		case 3: // shorter than the extensions require
 			if ext > 0 {
 				b = b[:35+r.Intn(ext)]
+			}
+		case 4:
+			if r.chance(1, 4) {
+				// a very long record (lines beyond the usual reader buffer sizes 4096 / 8192 / 16384): what
+				// follows the padding looks like a record of its own but belongs to this line
+				pad := []int{4096, 4097, 8192, 16384, 5000}[r.Intn(5)] - len(b)
+				b += strings.Repeat(string(rune('0'+r.Intn(10))), pad) + r.igcBRecord(ext)
 			}
 		}
 		sb.WriteString(b + eol)
